@@ -538,6 +538,29 @@ class Pipeline:
         open(os.path.join(self.root, "go.sum"), "w").write(sums)
         self.events = {}      # design index -> genhost events
         self.failed = {}      # design index -> (stage, detail)
+        self._warm_start()
+
+    # The go build cache of generated code lives in the scratch directory (core.goenv(gen=True)) and starts empty: without
+    # this, the first wave of parallel `go build`s each compiles the standard library and the goa runtime packages for
+    # itself (nothing is shared between processes until an entry is written).  One build of the packages every generated
+    # package depends on fills the cache once per check run, while genhost is still generating (which needs no cache).
+    WARM = ["verif/harness/rt", "goa.design/goa/v3/http", "goa.design/goa/v3/pkg", "goa.design/goa/v3/security", "goa.design/goa/v3/http/middleware"]
+
+    _WARM_LOCK = __import__("threading").Lock()
+
+    def _warm_start(self):
+        with Pipeline._WARM_LOCK:
+            if getattr(self.ctx, "_gocache_warm", None) is None:
+                pool = cf.ThreadPoolExecutor(max_workers=1)
+                self.ctx._gocache_warm = pool.submit(subprocess.run, ["go", "build"] + self.WARM, cwd=self.root, env=self.ctx.goenv(gen=True),
+                                                     stdout=subprocess.DEVNULL, stderr=subprocess.DEVNULL, timeout=900)
+                pool.shutdown(wait=False)
+
+    def _warm_wait(self):
+        try:
+            self.ctx._gocache_warm.result()
+        except Exception:       # whatever is wrong will show in the builds proper
+            pass
 
     def _gen_one(self, i, design, cmds):
         d = os.path.join(self.root, "d%s" % i)
@@ -605,6 +628,7 @@ class Pipeline:
         if rounds != 0:       # (whole-design programs are judged as a whole)
             self._isolate_stage_failures(designs, cmds)
         todo = [i for i in range(len(designs)) if i not in self.failed]
+        self._warm_wait()
         if rounds == 0:   # whole-design programs: no method isolation, a design that does not compile just fails
             with cf.ThreadPoolExecutor(max_workers=8) as ex:
                 for i, rc, out in ex.map(self._compile_gen, todo):
